@@ -365,6 +365,11 @@ class Check:
         self.known = []
         self.notes = []
         self._findings = json.load(open(FINDINGS)) if os.path.exists(FINDINGS) else {"findings": []}
+        fdir = os.path.join(VERIF, "findings")      # per-property files written while a slice is being built
+        if os.path.isdir(fdir):
+            for f in sorted(os.listdir(fdir)):
+                if f.endswith(".json"):
+                    self._findings["findings"] += json.load(open(os.path.join(fdir, f))).get("findings", [])
 
     # -- accounting
     def add_tlc(self, res, name=None):
